@@ -6,9 +6,10 @@ import (
 	"verif/internal/refmodel"
 )
 
-// CutOracle reports whether the decoder under test ACCEPTS (returns no
-// error for) the strict prefix of length k of the reference encoding of d
-// taken as a top-level case.
+// CutOracle reports whether the decoder under test does NOT refuse the strict
+// prefix of length k of the reference encoding of d taken as a top-level
+// case (it returns a nil error, or panics - "accepted" below means "not
+// refused"; the caller names the outcome of the reduced case).
 type CutOracle func(d *refmodel.Datum, k int) bool
 
 func hasPrefix(p, prefix []int) bool {
